@@ -24,7 +24,7 @@ namespace
   inline double h_int(long long key, int rank, int c) { return double(((unsigned long long)(key * 2654435761ll + rank * 40503ll + c * 977 + 12345) % 1048576ull)) - 524288.0; }
   inline double g_val(long long key, int salt, int c) { return double(((unsigned long long)(key * 1103515245ll + salt * 7919ll + c * 31 + 11) % 4096ull)) / 64.0 - 32.0; }
 
-  struct LevelOut { int layer = -1, level = -1, layer_rank = -1, layer_size = 0; std::vector<long long> keys; std::vector<double> s0, s1, freqs; };
+  struct LevelOut { int layer = -1, level = -1, layer_rank = -1, layer_size = 0; std::vector<long long> keys; std::vector<double> s0, s1, freqs, prol, rest; };
   struct RankOut
   {
     std::vector<LevelOut> levels;
@@ -38,7 +38,7 @@ namespace
   };
   struct Shared { wc::VertexDict dict; std::vector<RankOut> a, b; };
   Shared* SH = nullptr;
-  struct Counters { uint64_t sync0 = 0, shared = 0, matvec = 0, iters = 0; } CNT;
+  struct Counters { uint64_t sync0 = 0, shared = 0, matvec = 0, iters = 0, transfer = 0; } CNT;
 
   typedef Geometry::ConformalMesh<FEAT::Shape::Hypercube<2>> MeshType;
   typedef Trafo::Standard::Mapping<MeshType> TrafoType;
@@ -115,6 +115,35 @@ namespace
       gate.sync_1(v1);
       for(Index d = 0; d < nd; ++d) for(int c = 0; c < 2; ++c) { lo.s0.push_back(v0(d)[c]); lo.s1.push_back(v1(d)[c]); lo.freqs.push_back(gate.get_freqs()(d)[c]); }
       out.levels.push_back(std::move(lo));
+    }
+
+    // grid transfer of blocked vectors applied directly (see c13_kit.hpp): consistent test vectors down by restriction,
+    // up by prolongation, across layer boundaries through the muxer
+    for(Index i = 0; (i < domain.size_physical()) && ((i + 1) < domain.size_virtual()); ++i)
+    {
+      const auto& tr = system_levels.at(i)->transfer_sys;
+      LevelOut& lf = out.levels.at(i);
+      const Index nf = Index(lf.keys.size());
+      GlobalSystemVector vf(&system_levels.at(i)->gate_sys, LocalVector(nf)), vp(&system_levels.at(i)->gate_sys, LocalVector(nf));
+      for(Index d = 0; d < nf; ++d) { Tiny::Vector<double, 2> a; a[0] = g_val(lf.keys[d], 41, 0); a[1] = g_val(lf.keys[d], 41, 1); vf.local()(d, a); }
+      vp.format();
+      if((i + 1) < domain.size_physical())
+      {
+        LevelOut& lc = out.levels.at(i + 1);
+        const Index nc = Index(lc.keys.size());
+        GlobalSystemVector vc(&system_levels.at(i + 1)->gate_sys, LocalVector(nc)), vr(&system_levels.at(i + 1)->gate_sys, LocalVector(nc));
+        for(Index d = 0; d < nc; ++d) { Tiny::Vector<double, 2> a; a[0] = g_val(lc.keys[d], 42, 0); a[1] = g_val(lc.keys[d], 42, 1); vc.local()(d, a); }
+        vr.format();
+        tr.rest(vf, vr);
+        for(Index d = 0; d < nc; ++d) { lc.rest.push_back(vr.local()(d)[0]); lc.rest.push_back(vr.local()(d)[1]); }
+        tr.prol(vp, vc);
+      }
+      else
+      {
+        tr.rest_send(vf);
+        tr.prol_recv(vp);
+      }
+      for(Index d = 0; d < nf; ++d) { lf.prol.push_back(vp.local()(d)[0]); lf.prol.push_back(vp.local()(d)[1]); }
     }
 
     DomainLevelType& the_domain_level = *domain.front();
@@ -215,6 +244,37 @@ namespace
     std::map<long long, size_t> bidx;
     for(size_t i = 0; i < B.keys.size(); ++i) bidx[B.keys[i]] = i;
     if(!close(A[0].dot, B.dot, 1e-12, std::abs(B.dot) + 1e3) || !close(A[0].norm2, B.norm2, 1e-12, B.norm2 + 1)) sim::fail("DOT", "global dot/norm2 of a blocked vector differs from the one-process value");
+    {
+      std::map<int, const LevelOut*> bl;
+      for(const LevelOut& l : B.levels) bl[l.level] = &l;
+      auto cmp = [&](const LevelOut& l, const std::vector<double>& mine, const std::vector<double> LevelOut::* ref, const char* cls, const char* what)
+      {
+        if(mine.empty()) return;
+        auto it = bl.find(l.level);
+        if(it == bl.end()) sim::fail("INFRA", "the one-process run lacks a level of the distributed run");
+        const LevelOut& b = *it->second;
+        const std::vector<double>& rv = b.*ref;
+        if(rv.empty()) sim::fail("INFRA", std::string("the one-process run has no ") + what + " on level " + std::to_string(l.level));
+        std::map<long long, size_t> bi; for(size_t d = 0; d < b.keys.size(); ++d) bi[b.keys[d]] = d;
+        double sc = 1e-300; for(double x : rv) sc = std::max(sc, std::abs(x));
+        for(size_t d = 0; d < l.keys.size(); ++d)
+        {
+          auto f = bi.find(l.keys[d]);
+          if(f == bi.end()) sim::fail("DOF_KEY_UNKNOWN", "a DOF of a coarser level is unknown to the one-process run");
+          for(size_t c = 0; c < 2; ++c)
+          {
+            ++CNT.transfer;
+            if(!(std::abs(mine[2 * d + c] - rv[2 * f->second + c]) <= 1e-11 * sc))
+              sim::fail(cls, std::string(what) + " of a blocked vector onto layer " + std::to_string(l.layer) + " level " + std::to_string(l.level) + " on layer rank " + std::to_string(l.layer_rank) + " of " + std::to_string(l.layer_size) + ": " + std::to_string(mine[2 * d + c]) + ", one-process value " + std::to_string(rv[2 * f->second + c]));
+          }
+        }
+      };
+      for(const RankOut& r : A) for(const LevelOut& l : r.levels)
+      {
+        cmp(l, l.prol, &LevelOut::prol, "TRANSFER_PROL", "prolongation");
+        cmp(l, l.rest, &LevelOut::rest, "TRANSFER_REST", "restriction");
+      }
+    }
     std::map<std::pair<int, int>, std::vector<const LevelOut*>> groups;
     for(const RankOut& r : A) for(const LevelOut& l : r.levels) groups[{l.layer, l.level}].push_back(&l);
     for(const auto& g : groups)
@@ -317,7 +377,7 @@ std::string harness_run()
   simmpi::world_end();
   verify();
   SH = nullptr;
-  return "{\"sync0_dofs\":" + std::to_string(CNT.sync0) + ",\"shared_dofs\":" + std::to_string(CNT.shared) + ",\"matvec_entries\":" + std::to_string(CNT.matvec) + ",\"solver_iterations\":" + std::to_string(CNT.iters) + "}";
+  return "{\"sync0_dofs\":" + std::to_string(CNT.sync0) + ",\"shared_dofs\":" + std::to_string(CNT.shared) + ",\"matvec_entries\":" + std::to_string(CNT.matvec) + ",\"solver_iterations\":" + std::to_string(CNT.iters) + ",\"transfer_entries\":" + std::to_string(CNT.transfer) + "}";
 }
 
 int main(int argc, char** argv) { return harness_main(argc, argv); }
